@@ -107,6 +107,22 @@ def simon_forms(n, s, r, rng):
                 k += 1
         out.append(("lookup", f"def f(a: Qint[{n}]) -> Qint[{n}]:\n    l = [{', '.join(str(tab[x]) for x in range(N))}]\n    return l[a]\n", f"Qint{n}"))
     out.append(("stmt_if", f"def f(a: Qint[{n}]) -> Qint[{n}]:\n    b = a\n    if a[{j}]:\n        b = a ^ {s}\n    return b\n", f"Qint{n}"))
+    # return type different from the argument type (the outcome is still an ARGUMENT-typed value)
+    wider = {2: 4, 3: 5, 4: 6}[n]
+    out.append(("wider_return", f"def f(a: Qint[{n}]) -> Qint[{wider}]:\n    return (a ^ {s}) if a[{j}] else a\n", f"Qint{n}"))
+    if n == 3:
+        labels = list(range(4))
+        rng.shuffle(labels)
+        tab, k = {}, 0
+        for x in range(N):
+            if x not in tab:
+                tab[x] = tab[x ^ s] = labels[k]
+                k += 1
+        out.append(("narrower_return", f"def f(a: Qint[3]) -> Qint[2]:\n    l = [{', '.join(str(tab[x]) for x in range(N))}]\n    return l[a]\n", "Qint3"))
+    if n in (2, 3):
+        tt = "Tuple[" + ", ".join(["bool"] * n) + "]"
+        mt = ", ".join(f"(a[{i}] ^ a[{j}])" if ((s >> i) & 1 and i != j) else (f"a[{i}]" if i != j else "False") for i in range(n))
+        out.append(("tuple_arg", f"def f(a: {tt}) -> Qint[{n}]:\n    b = ({mt})\n    return {' + '.join(f'({1 << i} if b[{i}] else 0)' for i in range(n))}\n", ["bool"] * n))
     return out
 
 
